@@ -6,6 +6,9 @@ import FxVerif.Proofs.C15Run
 import FxVerif.Proofs.C15Step
 import FxVerif.Proofs.C15Staking
 import FxVerif.Proofs.C15Ledger
+import FxVerif.Proofs.C15Sdk
+import FxVerif.Proofs.C15Custom
+import FxVerif.Proofs.C15Counts
 /-!
 # C15 — governance deposits are conserved and proposals follow their message-type rules
 
@@ -362,6 +365,7 @@ theorem period_and_quorum_by_type (s : State) (p : Proposal) (n : Nums) (pid : N
   · intro hp hexp h
     have hpid : p.id = pid := findProp_id hp
     unfold finishTally at h
+    simp only [refundRun_eq, burnRun_eq] at h
     simp only [show settleShapeOk = true from rfl, Bool.not_true, Bool.false_and, Bool.false_eq_true, if_false] at h
     simp only [show settleShapeOk = true from rfl, hexp, if_true, Bool.not_false, Bool.and_self, Bool.not_true,
       Bool.false_eq_true, if_false] at h
@@ -376,7 +380,8 @@ registered urls are unique up to case — checked on the real registry by the ha
 theorem single_type (s s' : State) (who : Addr) (msgs : List Msg) (initial : Nat) (exp : Bool)
     (h : submit s who msgs initial exp = .ok s') : ∀ a ∈ msgs, ∀ b ∈ msgs, lowerAscii a.ty = lowerAscii b.ty := by
   have hc : checkMsgs msgs = true := by
-    unfold submit at h
+    rw [submit_eq] at h
+    unfold submitSpec at h
     split at h
     · cases h
     · rename_i hc; simpa using hc
@@ -422,7 +427,8 @@ theorem gov_endblock_inactive_total (ops : List Op) (pid : Nat) (p : Proposal) :
     findProp s.props pid = some p → ∃ s', dropInactive pid s = .ok s' := by
   intro s hp
   have hi : Inv s := run_inv rfl rfl rfl ops init init_inv
-  unfold dropInactive
+  rw [dropInactive_eq]
+  unfold dropInactiveSpec
   simp only [hp, show inactiveSettleShapeOk = true from rfl, if_true]
   split
   · exact refundDeposits_total (by simpa using hi.bal)
@@ -436,6 +442,7 @@ theorem gov_endblock_finish_total (ops : List Op) (pid : Nat) (p : Proposal) (pa
   intro s _
   have hi : Inv s := run_inv rfl rfl rfl ops init init_inv
   unfold finishTally
+  simp only [refundRun_eq, burnRun_eq]
   simp only [show settleShapeOk = true from rfl, Bool.not_true, Bool.false_and, Bool.false_eq_true, if_false]
   simp only [show settleShapeOk = true from rfl, if_true]
   by_cases hk : (p.expedited && !passes) = true
@@ -493,6 +500,7 @@ theorem gov_endblock_active_total (ops : List Op) (pid : Nat) (p : Proposal) (st
       ∃ s', finishTally passes burn (n.yes / DEC, n.abstain / DEC, n.no / DEC, n.veto / DEC) p pid s0 = .ok s' := by
     intro s0 hb
     unfold finishTally
+    simp only [refundRun_eq, burnRun_eq]
     simp only [show settleShapeOk = true from rfl, Bool.not_true, Bool.false_and, Bool.false_eq_true, if_false]
     simp only [show settleShapeOk = true from rfl, if_true]
     by_cases hk : (p.expedited && !passes) = true
@@ -589,6 +597,7 @@ theorem tally_consumes_votes (stk : Staking) (pid : Nat) (s s' : State) (h : tal
         simp only [show tallyRemovesVotes = true from rfl, if_true] at h
         have hv : s'.votes = votesNot s.votes pid := by
           unfold finishTally at h
+          simp only [refundRun_eq, burnRun_eq] at h
           simp only [show settleShapeOk = true from rfl, Bool.not_true, Bool.false_and, Bool.false_eq_true, if_false] at h
           simp only [show settleShapeOk = true from rfl, if_true] at h
           have settle : ∀ s1 : State,
@@ -1207,7 +1216,179 @@ theorem deposits_paid_equal_held_plus_settled (ops : List Op) (pid : Nat) :
   rw [h0] at h
   simpa using h
 
+/-! ## round 4: the SDK keeper functions regenerated, the custom parameters a tally sees, counts = votes × stakes -/
+
+/-- **`CancelProposal` of the SDK version `/repo/go.mod` selects, as written there now**: its statement list (regenerated from
+the module cache) is the expected one — look-up, proposer, open status, voting end not passed, THEN `ChargeDeposit`, the
+votes deleted if voting had started, `DeleteProposal` last — and so are those of `DeleteProposal`, `ChargeDeposit` (its loop
+body, its destination switch); the model's `step` runs them tag by tag (`cancelRun`), and that run IS the one-piece `cancel`
+every history theorem above is proved about, in every state, for every id and sender -/
+theorem sdk_cancel_statement_order :
+    sdkCancelSteps = ["sdkCtx", "getProposal", "needProposer", "checkProposer", "checkOpen", "checkNotEnded", "getParams",
+      "chargeDeposit", "deleteVotesIfStarted", "deleteProposal", "log", "return"] ∧
+    sdkDeleteProposalSteps = ["getProposal", "removeInactive", "removeActive", "removeProposal"] ∧
+    sdkChargeSteps = ["rate", "charges0", "getDeposits", "depositLoop", "payCharges", "return"] ∧
+    sdkChargeBody = ["depositor", "remaining0", "coinLoop", "refundRemaining", "removeDeposit"] ∧
+    sdkChargeCoin = ["burnAmount=trunc(amount*rate)", "remaining+=amount-burnAmount", "charges+=burnAmount"] ∧
+    (∀ (s : State) (pid : Nat) (who : Addr), cancelRun s pid who = cancel s pid who) ∧
+    (∀ (s : State) (pid : Nat) (who : Addr), (step s (.cancel pid who)).1 = (ofExcept s (cancel s pid who)).1) ∧
+    (∀ (s : State) (pid : Nat) (p : Proposal), findProp s.props pid = some p →
+      deleteProposalRun pid s = { s with inactive := removeQ (p.depositEnd, pid) s.inactive,
+                                         active := removeQ (p.votingEnd, pid) s.active, props := dropProp s.props pid }) :=
+  ⟨rfl, rfl, rfl, rfl, rfl, cancelRun_eq, fun s pid who => by simp only [step, cancelRun_eq],
+   fun _ _ _ hp => deleteProposalRun_eq hp⟩
+
+/-- **the statements of `ActivateVotingPeriod`, as written in the source now** (regenerated list, interpreted by the model —
+`AddDeposit`'s activation step runs `activateRun`): the start is the block time, the period is the default of the kind
+replaced by the custom period of the message type, the end is START + period, the proposal is stored with start, end and
+status, its inactive-queue entry is removed and its active-queue entry written under the stored end — and this run is the
+one-piece `activate` of the history theorems, in every state -/
+theorem activate_statement_order :
+    activateSteps = ["sdkCtx", "startTime=blockTime", "setVotingStart", "var", "getParams", "periodByExpedited", "customPeriod",
+      "endTime=start+period", "setVotingEnd", "setStatusVoting", "setProposal", "removeInactive", "setActive:votingEnd"] ∧
+    ∀ (s : State) (p : Proposal), activateRun s p = activate s p :=
+  ⟨rfl, activateRun_eq⟩
+
+/-- **`Keeper.SubmitProposal` of that SDK version, and the inactive-queue step of the end-blocker**: the regenerated statement list
+of `SubmitProposal` is the expected one — the message loop with `ValidateBasic`, exactly one signer, that signer the gov account,
+a routed handler and the dry run of a legacy content; then the id is `ProposalID.Next`, the deposit end is the block time +
+`MaxDepositPeriod`, the proposal is stored and entered into the inactive queue under that deposit end — and its interpreted run
+(`sdkSubmitRun`, which the model's `submit` calls between the fx checks and `AddDeposit`) does exactly that, for every state and
+submission; `submit` is the one-piece `submitSpec`, `dropInactive` — `DeleteProposal`, then `RefundAndDeleteDeposits` or
+`DeleteAndBurnDeposits`, all three interpreted — is the one-piece `dropInactiveSpec` of the history theorems, and the SDK's `AddVote`
+(refused unless the id is in the `VotingPeriodProposals` index, then `Votes.Set` under (proposal, voter)), interpreted by the model's
+`vote` after the message server's validation of the options, is the one-piece `voteSpec` -/
+theorem sdk_submit_statement_order :
+    sdkSubmitSteps = ["sdkCtx", "assertMetadata", "assertSummary", "assertTitle", "msgsStr0", "msgLoop", "nextId", "getParams",
+      "submitTime=blockTime", "depositPeriod=maxDepositPeriod", "newProposal(depositEnd=submitTime+depositPeriod)", "setProposal",
+      "inactiveQueueSet:depositEnd", "hooks", "event", "return"] ∧
+    sdkSubmitLoop = ["msgsStr+=", "validateBasic", "getSigners", "oneSigner", "signerIsGov", "handler", "routable", "legacyDryRun"] ∧
+    (∀ (s : State) (proposer : Addr) (msgs : List Msg) (expedited : Bool),
+      sdkSubmitRun s proposer msgs expedited =
+        if !msgs.all (·.wellFormed) then .error "err:msg" else
+        .ok ({ s with nextId := s.nextId + 1,
+                      props := s.props ++ [{ id := s.nextId, msgs := msgs, proposer := proposer, status := .deposit, total := 0,
+                                             depositEnd := s.time + s.params.maxDepositPeriod, votingStart := 0, votingEnd := 0,
+                                             expedited := expedited }],
+                      inactive := insertQ (s.time + s.params.maxDepositPeriod, s.nextId) s.inactive }, s.nextId)) ∧
+    (∀ (s : State) (proposer : Addr) (msgs : List Msg) (initial : Nat) (expedited : Bool),
+      submit s proposer msgs initial expedited = submitSpec s proposer msgs initial expedited) ∧
+    (∀ (pid : Nat) (s : State), dropInactive pid s = dropInactiveSpec pid s) ∧
+    sdkAddVoteSteps = ["inVotingPeriod=VotingPeriodProposals.Has", "rejectUnlessVoting", "assertMetadata", "optionsValid", "newVote",
+      "votesSet", "hooks", "sdkCtx", "event", "return"] ∧
+    (∀ (s : State) (pid : Nat) (voter : Addr) (opts : List (Opt × Nat)), vote s pid voter opts = voteSpec s pid voter opts) :=
+  ⟨rfl, rfl, sdkSubmitRun_eq, submit_eq, dropInactive_eq, rfl, vote_eq⟩
+
+/-- **`RefundAndDeleteDeposits` and `DeleteAndBurnDeposits` of that SDK version**: the callback of the refund walk sends the
+deposit to its depositor and removes the record; the burn walk adds the amount to `coinsToBurn` and removes the record, one
+`BurnCoins` of the sum follows the walk.  Interpreted (`refundRun`, `burnRun`), they are the `refundDeposits` /
+`burnDeposits` of the model in every state, and the model's end-blocker (`dropInactive`, `finishTally`) RUNS the interpreted
+ones — so `each_deposit_settled_once_refund` / `_burn` speak about the SDK code as written now -/
+theorem sdk_settlement_statements :
+    sdkRefundCallback = ["depositor", "send", "remove", "return:return false, err"] ∧
+    sdkBurnSteps = ["sum0", "walk", "burnSum"] ∧ sdkBurnCallback = ["accumulate", "remove"] ∧
+    (∀ (pid : Nat) (s : State), refundRun pid s = refundDeposits pid s) ∧
+    (∀ (pid : Nat) (s : State), burnRun pid s = burnDeposits pid s) :=
+  ⟨rfl, rfl, rfl, refundRun_eq, burnRun_eq⟩
+
+/-- **the tally of a block uses the period and quorum configured at the START of the block**, after every history, unless
+a proposal tallied BEFORE it in the same block rewrites them: with `s` the state after any operation list and `p` a stored
+proposal whose voting end has been reached, if no stored proposal whose voting end has been reached and which PRECEDES `p` in
+queue order (earlier voting end, or the same end and a smaller id — the order of the end-blocker's walk) carries a
+`MsgUpdateCustomParams`, then the moment `sm` of `voting_ends_exactly_at_period_end` has the custom parameters of `s`: the
+outcome is the specified one with the quorum configured for the message type in `s`, and a failed expedited proposal is
+converted with the regular period configured for its type in `s`.  (Without the hypothesis the tally sees the parameters as
+rewritten by the proposals executed before it in queue order — `example` below; that is the code's behaviour, and the
+property's "configured for its message type" is then read at that moment.) -/
+theorem tally_uses_block_start_custom (ops : List Op) (dt : Nat) (stk : Staking) (pid : Nat) (p : Proposal) :
+    let s := run init ops
+    let s' := (step s (.endBlock dt stk)).1
+    findProp s.props pid = some p → p.status = .voting → stakingOk stk → p.votingEnd ≤ s.time →
+    (∀ id q, findProp s.props id = some q → q.status = .voting → q.votingEnd ≤ s.time →
+      (q.votingEnd < p.votingEnd ∨ (q.votingEnd = p.votingEnd ∧ id < pid)) → noSetCustom q.msgs = true) →
+    ∃ (sm : State) (n : Nums) (q : Proposal), sm.params = s.params ∧ sm.time = s.time ∧ sm.custom = s.custom ∧
+      findProp sm.props pid = some p ∧ tallyNums (votesOf sm.votes pid) stk = some n ∧
+      findProp s'.props pid = some q ∧
+      (specPasses s.params (specQuorum s.params s.custom p.msgs) p.expedited n = true → q.status = .passed ∨ q.status = .failed) ∧
+      (specPasses s.params (specQuorum s.params s.custom p.msgs) p.expedited n = false → p.expedited = false → q.status = .rejected) ∧
+      (specPasses s.params (specQuorum s.params s.custom p.msgs) p.expedited n = false → p.expedited = true →
+          q.status = .voting ∧ q.expedited = false ∧ q.votingEnd = p.votingStart + specPeriod s.params s.custom p.msgs false) := by
+  intro s s' hp hv hs hle hno
+  have ha : All s := run_all rfl rfl rfl rfl ops init init_all
+  obtain ⟨s1, hb, _⟩ := endBlock_total rfl rfl rfl rfl rfl ha hs
+  have hs' : s' = (step s (.endBlock dt stk)).1 := rfl
+  simp only [step, hb] at hs'
+  have e' : s'.props = s1.props := by rw [hs']
+  obtain ⟨sm, q, n, passes, burn, hsm, hpar, htime, hcus, hpm, hn, hr, hq, hend⟩ :=
+    endBlock_voting_custom rfl rfl rfl rfl rfl ha hb hp hv hle (fun id q h1 h2 h3 h4 => hno id q h1 h2 h3 h4)
+  obtain ⟨n', hn', hj, _⟩ := tallyNums_ok (votes := votesOf sm.votes pid) (stk := stk)
+    (fun v hv' => hsm.both.v.valid v (mem_votesOf.mp hv').1) hs rfl
+  rw [hn] at hn'; cases hn'
+  have hout := tally_outcome_by_type sm p n hj
+  rw [hr, hpar, hcus] at hout
+  have hpass : passes = specPasses s.params (specQuorum s.params s.custom p.msgs) p.expedited n := by
+    cases hout; rfl
+  have hq' : findProp s'.props pid = some q := by rw [e']; exact hq
+  obtain ⟨_, _, _, _, e5⟩ := hend
+  refine ⟨sm, n, q, hpar, htime, hcus, hpm, hn, hq', fun h => ?_, fun h hx => ?_, fun h hx => ?_⟩
+  · rcases e5 with e5 | e5 | e5
+    · exact e5.2
+    · rw [hpass, h] at e5; cases e5.1
+    · rw [hpass, h] at e5; cases e5.1
+  · rcases e5 with e5 | e5 | e5
+    · rw [hpass, h] at e5; cases e5.1
+    · rw [hx] at e5; cases e5.2.1
+    · exact e5.2.2
+  · rcases e5 with e5 | e5 | e5
+    · rw [hpass, h] at e5; cases e5.1
+    · have hst : q.status = .voting := by rw [e5.2.2.1]; exact hv
+      refine ⟨hst, e5.2.2.2.1, ?_⟩
+      rw [e5.2.2.2.2, conversion_period_by_type, hpar, hcus]
+    · rw [hx] at e5; cases e5.2.1
+
+/-- **the per-option counts are votes × stakes, for all inputs**: whatever the stored votes and the staking numbers are, when
+the sums of `Tally` are defined the count of every option is the sum over the votes of (power of each delegation of the voter
+to a bonded validator) × (weight given to the option) plus the sum over the bonded validators whose operator voted of (power
+of the shares left after the deductions) × (weight), the total is the sum of exactly those powers, and the turnout is taken
+against the total bonded tokens of the block -/
+theorem tally_counts_are_stake_times_weight (votes : List Vote) (stk : Staking) (n : Nums) (h : tallyNums votes stk = some n) :
+    (∀ o : Opt, getOpt n o = voteCount o stk votes + valCount o votes stk.dels stk.vals) ∧
+    n.total = voteTotal stk votes + valTotal votes stk.dels stk.vals ∧ n.bonded = stk.totalBonded :=
+  ⟨fun o => (tallyNums_counts votes stk n h o).1, (tallyNums_counts votes stk n h .yes).2.1, (tallyNums_counts votes stk n h .yes).2.2⟩
+
+/-- **the final tally result a block stores is votes × stakes — after every history**: with `s` the state after any operation
+list and `p` a stored proposal whose voting end has been reached, a block (staking numbers of any staking state) stores as
+the proposal's `FinalTallyResult`, per option, the whole tokens (`TruncateInt`) of the sum over the votes stored for it at the
+moment `sm` of its tally of (power of each delegation of the voter to a bonded validator) × (weight) plus the sum over the
+bonded validators whose operator voted of (power left after the deductions) × (weight) — whatever the outcome is (passed,
+failed, rejected, or an expedited proposal converted to a regular one) -/
+theorem stored_tally_result_is_votes_times_stakes (ops : List Op) (dt : Nat) (stk : Staking) (pid : Nat) (p : Proposal) :
+    let s := run init ops
+    let s' := (step s (.endBlock dt stk)).1
+    findProp s.props pid = some p → p.status = .voting → stakingOk stk → p.votingEnd ≤ s.time →
+    ∃ (sm : State) (q : Proposal), sm.params = s.params ∧ sm.time = s.time ∧ findProp sm.props pid = some p ∧
+      findProp s'.props pid = some q ∧
+      q.tallyRes =
+        ((voteCount .yes stk (votesOf sm.votes pid) + valCount .yes (votesOf sm.votes pid) stk.dels stk.vals) / DEC,
+         (voteCount .abstain stk (votesOf sm.votes pid) + valCount .abstain (votesOf sm.votes pid) stk.dels stk.vals) / DEC,
+         (voteCount .no stk (votesOf sm.votes pid) + valCount .no (votesOf sm.votes pid) stk.dels stk.vals) / DEC,
+         (voteCount .veto stk (votesOf sm.votes pid) + valCount .veto (votesOf sm.votes pid) stk.dels stk.vals) / DEC) := by
+  intro s s' hp hv hs hle
+  have ha : All s := run_all rfl rfl rfl rfl ops init init_all
+  obtain ⟨s1, hb, _⟩ := endBlock_total rfl rfl rfl rfl rfl ha hs
+  have hs' : s' = (step s (.endBlock dt stk)).1 := rfl
+  simp only [step, hb] at hs'
+  have e' : s'.props = s1.props := by rw [hs']
+  obtain ⟨sm, q, n, _, hpar, htime, hpm, hn, hq, hres⟩ := endBlock_voting_res rfl rfl rfl rfl ha hb hp hv hle
+  have c := fun o => (tallyNums_counts (votesOf sm.votes pid) stk n hn o).1
+  refine ⟨sm, q, hpar, htime, hpm, by rw [e']; exact hq, ?_⟩
+  rw [hres, ← c .yes, ← c .abstain, ← c .no, ← c .veto]
+  rfl
+
 /-! ## non-vacuity -/
+
+-- the examples below evaluate whole histories by `decide`; the interpreted statement lists (string tags) need a deeper recursion
+set_option maxRecDepth 16384
 
 def egf : Ty := egfUrl.toList
 def spend (fx other : Nat) : Msg := ⟨egf, true, true, .credit fx other 1, []⟩
@@ -1313,5 +1494,62 @@ example : (viewOf (wrun winit [.genesis demoGenesis, .slash 101 9500000000000000
 example : sumAmt (depsOf (run init demoOps).paid 1) = 2000 ∧ sumSettled (settledOf (run init demoOps).settled 1) = 2000 ∧
     sumAmt (depsOf (run init demoOps).deps 1) = 0 ∧ sumAmt (depsOf (run init demoOps).deps 3) = 5000 ∧
     sumSettled (settledOf (run init demoOps).settled 3) = 0 := by decide
+
+/-! ### round 4 -/
+
+/-- non-vacuity of `tally_uses_block_start_custom`: after `demoOps.take 14` the clock is 50, proposal 1 (end 30) and
+proposal 3 (expedited, end 50) are due in the next block, and no stored proposal carries a `MsgUpdateCustomParams` -/
+example : (run init (demoOps.take 14)).time = 50 ∧
+    (findProp (run init (demoOps.take 14)).props 1).map (fun p => (p.status, p.votingEnd)) = some (.voting, 30) ∧
+    (run init (demoOps.take 14)).props.all (fun q => noSetCustom q.msgs) = true ∧ stakingOk demoStk := by
+  refine ⟨by decide, by decide, by decide, ?_⟩
+  intro v hv
+  simp [demoStk] at hv
+  rcases hv with rfl | rfl | rfl <;> simp [DEC]
+
+def toggleUrl : Ty := "/fx.erc20.v1.MsgToggleTokenConversion".toList
+/-- a `MsgUpdateCustomParams` that sets the quorum of the toggle type to 90 % -/
+def setQ : Msg := ⟨"/fx.gov.v1.MsgUpdateCustomParams".toList, true, true, .setCustom toggleUrl (some ⟨0, 20, 900000000000000000⟩), []⟩
+/-- two proposals end in the same block; the first in queue order rewrites the quorum of the second one's type -/
+def sameBlockOps : List Op :=
+  [ .mint 0 100000,
+    .submit 0 [setQ] 1000 false,
+    .submit 0 [toggle] 1000 false,
+    .vote 1 100 [(.yes, DEC)], .vote 1 101 [(.yes, DEC)], .vote 1 102 [(.yes, DEC)],
+    .vote 2 100 [(.yes, DEC)],
+    .endBlock 100 demoStk ]
+
+/-- … and the hypothesis of `tally_uses_block_start_custom` is needed: with the parameters of the block start (no custom
+entry, quorum 40 %, turnout 50 %, all yes) proposal 2 passes, but it is tallied AFTER proposal 1 (same voting end, smaller id:
+it precedes 2 in queue order) has set the quorum of its
+type to 90 % in the same end-blocker walk, and is rejected -/
+example : noSetCustom [setQ] = false ∧
+    ((run init sameBlockOps).props.map (fun p => (p.id, p.votingEnd))) = [(1, 100), (2, 100)] ∧
+    (let s := run init sameBlockOps
+     (tallyNums (votesOf s.votes 2) demoStk).map (fun n => specPasses s.params (specQuorum s.params s.custom [toggle]) false n) = some true) ∧
+    (run init (sameBlockOps ++ [.endBlock 1 demoStk])).props.map (fun p => (p.id, p.status)) = [(1, .passed), (2, .rejected)] := by
+  refine ⟨by decide, by decide, by decide, by decide⟩
+
+/-- non-vacuity of `tally_counts_are_stake_times_weight`: proposal 1 of `demoOps` — validator 100 (200 tokens, half of its
+shares held by account 0) votes yes, account 0 votes 70 % no / 30 % abstain: yes = 100 (the validator's own delegation),
+no = 70, abstain = 30, total 200, nothing is left to the validator after the deductions -/
+example : (tallyNums (votesOf (run init (demoOps.take 13)).votes 1) demoStk).map
+      (fun n => (getOpt n .yes, getOpt n .no, getOpt n .abstain, n.total)) = some (100 * DEC, 70 * DEC, 30 * DEC, 200 * DEC) ∧
+    voteCount .no demoStk (votesOf (run init (demoOps.take 13)).votes 1) = 70 * DEC ∧
+    valCount .yes (votesOf (run init (demoOps.take 13)).votes 1) demoStk.dels demoStk.vals = 0 := by
+  refine ⟨by decide, by decide, by decide⟩
+
+/-- the interpreted `CancelProposal`: the proposer of proposal 1 (deposits 1999 + 1, cancel ratio 1/2, charges burnt) gets
+1000 back, 999 + 0 are burnt, the proposal and its queue entry are gone; anyone else is refused, an unknown id too -/
+example : ((cancelRun (run init (demoOps.take 5)) 1 0).toOption.map (fun t => (t.gov, t.props.length, t.burned, t.active))) =
+      some (0, 0, 999, []) ∧
+    (step (run init (demoOps.take 5)) (.cancel 1 1)).2 = "err:proposer" ∧
+    (step (run init (demoOps.take 5)) (.cancel 9 1)).2 = "err:notfound" := by
+  refine ⟨by decide, by decide, by decide⟩
+
+/-- non-vacuity of `stored_tally_result_is_votes_times_stakes` (hypotheses: the first `example` of this section): the block at
+time 50 stores (100, 30, 70, 0) for proposal 1 — the whole tokens of the sums of the previous `example` -/
+example : (findProp (run init (demoOps.take 14 ++ [.endBlock 1 demoStk])).props 1).map (·.tallyRes) = some (100, 30, 70, 0) := by
+  decide
 
 end FxVerif.Props.C15
